@@ -527,6 +527,10 @@ class C09Monitor(histrun.Monitor):
                     res.count("untouched_intervals")
                     if new:
                         self.viol(w, f"{where}/commit-count/untouched-collection-got-commit", f"{p}: {len(new)} new commits although no request addressed the collection; steps: {[s.op for s in steps]!r}")
+                elif len(mine) == 1 and mine[0].op == "proppatch_same_value" and W.World.success(mine[0].eff):
+                    res.count("noop_property_sets")
+                    if new:
+                        self.viol(w, f"{where}/commit-count/noop-property-set-added-commit", f"{p}: a PROPPATCH that set a property to the value it already had added {len(new)} commit(s)")
                 elif prop_steps and not member_writes:
                     nchanges = 0
                     for s in prop_steps:
